@@ -283,6 +283,14 @@ func TestC12(t *testing.T) {
 			classes []string
 		)
 		fail := func(err error) { rt.Fatalf("VF-VIOLATION: property=C12 %v", err) }
+		// keys, salts and ExpandKey inputs are handed over in a drawn memory layout (see placeInputs)
+		mem := drawMem(rt)
+		var lays []*memLayout
+		pl := func(vals ...[]byte) [][]byte {
+			l := placeInputs(mem, vals...)
+			lays = append(lays, l)
+			return l.placed
+		}
 		switch kind {
 		case 0: // Blowfish NewCipher, every accepted key length
 			n := uniform(rt, "bf.keylen", 1, 56)
@@ -290,7 +298,7 @@ func TestC12(t *testing.T) {
 				n = pick(rt, "bf.edgelen", []int{1, 2, 3, 4, 5, 7, 8, 9, 55, 56})
 			}
 			key, kfill = gen.Bytes(rt, "key", n)
-			bc, err := blowfish.NewCipher(key)
+			bc, err := blowfish.NewCipher(pl(key)[0])
 			if err != nil {
 				fail(fmt.Errorf("blowfish.NewCipher rejected a %d-byte key: %v", n, err))
 			}
@@ -307,7 +315,7 @@ func TestC12(t *testing.T) {
 			salt, _ := gen.Bytes(rt, "salt", sl)
 			var bc *blowfish.Cipher
 			var err error
-			if perr := noPanic(func() { bc, err = blowfish.NewSaltedCipher(key, salt) }); perr != nil {
+			if perr := noPanic(func() { ks := pl(key, salt); bc, err = blowfish.NewSaltedCipher(ks[0], ks[1]) }); perr != nil {
 				fail(fmt.Errorf("blowfish.NewSaltedCipher(key %d bytes, salt %d bytes): %v", n, sl, perr))
 			}
 			if err != nil {
@@ -323,7 +331,7 @@ func TestC12(t *testing.T) {
 			for i := 0; i < nexp; i++ {
 				kl := uniform(rt, "bfs.explen", 1, 80)
 				ek, _ := gen.Bytes(rt, "expkey", kl)
-				if perr := noPanic(func() { blowfish.ExpandKey(ek, bc) }); perr != nil {
+				if perr := noPanic(func() { blowfish.ExpandKey(pl(ek)[0], bc) }); perr != nil {
 					fail(fmt.Errorf("blowfish.ExpandKey(%d-byte key): %v", kl, perr))
 				}
 				st.ExpandKey(nil, ek)
@@ -333,7 +341,7 @@ func TestC12(t *testing.T) {
 			nontriv = true
 		case 2: // CAST5
 			key, kfill = gen.Bytes(rt, "key", 16)
-			cc, err := cast5.NewCipher(key)
+			cc, err := cast5.NewCipher(pl(key)[0])
 			if err != nil {
 				fail(fmt.Errorf("cast5.NewCipher rejected a 16-byte key: %v", err))
 			}
@@ -342,7 +350,7 @@ func TestC12(t *testing.T) {
 		case 3: // Twofish
 			n := pick(rt, "tf.keylen", []int{16, 24, 32})
 			key, kfill = gen.Bytes(rt, "key", n)
-			tc, err := twofish.NewCipher(key)
+			tc, err := twofish.NewCipher(pl(key)[0])
 			if err != nil {
 				fail(fmt.Errorf("twofish.NewCipher rejected a %d-byte key: %v", n, err))
 			}
@@ -356,15 +364,15 @@ func TestC12(t *testing.T) {
 			rounds := 64
 			switch {
 			case mode < 3:
-				tc, err = tea.NewCipher(key)
+				tc, err = tea.NewCipher(pl(key)[0])
 			case mode < 9:
 				rounds = 2 * uniform(rt, "tea.halfrounds", 1, 40)
-				tc, err = tea.NewCipherWithRounds(key, rounds)
+				tc, err = tea.NewCipherWithRounds(pl(key)[0], rounds)
 				nontriv = nontriv || (rounds != 64 && rounds != 8)
 			default:
 				// zero / negative even round counts are accepted by the constructor; only inversion is asserted
 				rounds = -2 * rapid.IntRange(0, 20).Draw(rt, "tea.neghalfrounds")
-				tc, err = tea.NewCipherWithRounds(key, rounds)
+				tc, err = tea.NewCipherWithRounds(pl(key)[0], rounds)
 			}
 			if err != nil {
 				fail(fmt.Errorf("tea.NewCipherWithRounds(16-byte key, %d) rejected: %v", rounds, err))
@@ -376,7 +384,7 @@ func TestC12(t *testing.T) {
 			desc = fmt.Sprintf("tea|r%d", rounds)
 		case 5: // XTEA
 			key, kfill = gen.Bytes(rt, "key", 16)
-			xc, err := xtea.NewCipher(key)
+			xc, err := xtea.NewCipher(pl(key)[0])
 			if err != nil {
 				fail(fmt.Errorf("xtea.NewCipher rejected a 16-byte key: %v", err))
 			}
@@ -399,7 +407,7 @@ func TestC12(t *testing.T) {
 			key, kfill = gen.Bytes(rt, "key", n)
 			var rc cipher.Block
 			var err error
-			if perr := noPanic(func() { rc, err = pkcs12.VerifRC2New(key, t1) }); perr != nil || err != nil {
+			if perr := noPanic(func() { rc, err = pkcs12.VerifRC2New(pl(key)[0], t1) }); perr != nil || err != nil {
 				fail(fmt.Errorf("rc2.New(%d-byte key, t1=%d): %v %v", n, t1, perr, err))
 			}
 			name, impl, oracles = "rc2", rc, c12RC2Oracles(key, t1)
@@ -470,6 +478,12 @@ func TestC12(t *testing.T) {
 		} else if viol != nil {
 			fail(fmt.Errorf("%v (key %x, %s, second block)", viol, key, desc))
 		}
+		for _, l := range lays {
+			if merr := l.check(); merr != nil {
+				fail(fmt.Errorf("%s: %v (key %x, %s)", name, merr, key, desc))
+			}
+		}
+		classes = append(classes, "mem="+memClasses[mem])
 		classes = append(classes, name, map[bool]string{true: "inplace", false: "separate"}[inplace], "key:"+kfill)
 		c.Case(nontriv, fmt.Sprintf("%s|ip%v|%s|%s", desc, inplace, kfill, xfill), classes...)
 		if c.WantSample() {
